@@ -36,7 +36,7 @@ func anchorSet(docSrc string, page *nurl.URL) map[string]bool {
 	set := map[string]bool{}
 	doc := parseHTML(docSrc)
 	for _, a := range dom.GetElementsByTagName(doc, "a") {
-		h := dom.GetAttribute(a, "href")
+		h := strings.Trim(dom.GetAttribute(a, "href"), " \t\n\f\r") // as HTML does for URL attributes
 		ref, err := nurl.Parse(h)
 		if err != nil {
 			continue
@@ -57,6 +57,8 @@ func (c *Ctx) checkPaginationLink(which, v string, algo distiller.PaginationAlgo
 	switch {
 	case err != nil:
 		kind = "unparseable"
+	case strings.ContainsAny(v, " \t\n\r\f"):
+		kind = "white-space-in-url"
 	case pv.Scheme != "http" && pv.Scheme != "https":
 		kind = "scheme:" + pv.Scheme
 	case pv.Host == "":
